@@ -44,6 +44,27 @@ type schemaCase struct {
 	T   *core.SType
 	Ty  string // token form
 	Eng core.TypedEngine
+	// the same tree with every enum weakened to String, bound with inferred Go types (route "weak-node"); nil = not yet
+	// made, weakErr = cannot be made
+	weak    *core.SType
+	weakEng core.TypedEngine
+	weakErr error
+}
+
+func (sc *schemaCase) weakBuilder() (datamodel.NodeBuilder, error) {
+	if sc.weak == nil && sc.weakErr == nil {
+		w := core.WeakenEnums(sc.T)
+		ts, err := core.BuildTypeSystem(w)
+		if err != nil {
+			sc.weakErr = err
+		} else {
+			sc.weak, sc.weakEng = w, core.NewBindEngine(ts)
+		}
+	}
+	if sc.weakErr != nil {
+		return nil, sc.weakErr
+	}
+	return sc.weakEng.NewTypeBuilder(sc.weak.Name)
 }
 
 func newSchemaCase(t *core.SType) (*schemaCase, error) {
@@ -80,7 +101,10 @@ type buildObs struct {
 	Detail  string
 }
 
-var schemaRoutes = []string{"direct", "direct-rand", "cbor", "json"}
+// weak-node (type level only): the input is first built as a typed node of ANOTHER schema - the same tree with every
+// enum weakened to String, whose Go types are the same - and handed over with AssignNode: a typed source is data like
+// any other and must be accepted or refused exactly as the same data from a plain node
+var schemaRoutes = []string{"direct", "direct-rand", "cbor", "json", "weak-node"}
 
 // feed pushes the whole input into the builder of the root type at the level, over the route.
 func feed(sc *schemaCase, lvl, route string, input core.Val, r *core.Rand) buildObs {
@@ -104,10 +128,36 @@ func feed(sc *schemaCase, lvl, route string, input core.Val, r *core.Rand) build
 			return buildObs{Outcome: "unfed"}
 		}
 		payload = []byte(sb.String())
+	case "weak-node":
+		if lvl != "type" {
+			return buildObs{Outcome: "unfed"}
+		}
 	}
 	var n datamodel.Node
+	unfed := false
 	ferr, panicked, pv := core.Catch(func() error {
 		switch route {
+		case "weak-node":
+			wb, err := sc.weakBuilder()
+			if err != nil {
+				unfed = true
+				return nil
+			}
+			var src datamodel.Node
+			werr, wp, _ := core.Catch(func() error {
+				if err := core.Assemble(wb, input, nil); err != nil {
+					return err
+				}
+				src = wb.Build()
+				return nil
+			})
+			if wp || werr != nil {
+				unfed = true // the weakened schema does not hold this input either
+				return nil
+			}
+			if err := nb.AssignNode(src); err != nil {
+				return err
+			}
 		case "direct":
 			if err := core.Assemble(nb, input, nil); err != nil {
 				return err
@@ -130,6 +180,9 @@ func feed(sc *schemaCase, lvl, route string, input core.Val, r *core.Rand) build
 	})
 	if panicked {
 		return buildObs{Outcome: "panic", Detail: fmt.Sprint(pv)}
+	}
+	if unfed {
+		return buildObs{Outcome: "unfed"}
 	}
 	if ferr != nil {
 		return buildObs{Outcome: "rejected", Detail: ferr.Error()}
